@@ -1,6 +1,7 @@
 """E5: constants, geometry and layouts agree with each other and with the documented space bounds
 (R11.1-R11.3, R16.6, R02.2, broadword step constants)."""
 import math
+import os
 import re
 from framework import rule
 from guards import is_derived
@@ -490,3 +491,98 @@ def r07_8(ctx, rr):
             rr.ob(not bad, key=key, sample={"helper": hb.key, "argument": hb.params[pos].get("name")})
             if bad:
                 rr.violate(key, "%s, applied by set_up_graphs to the size of the largest shard, asserts an upper bound on that argument (`%s`): the largest shard is not bounded at that point (it exceeds the target size for key sets just below a sharding threshold, and by any amount in attempts later discarded as unbalanced), so the build panics instead of returning a function" % (hb.key, show(F, bad[0]["c"])[:80]), F.loc(bad[0]))
+
+
+@rule("R07.9", props=["C07", "C16", "C08"], floor=2, title="FuseLge3Shards decides its regime (lazy Gaussian elimination below MAX_LIN_SIZE) with one and the same test when it shards and when it sets up the graphs")
+def r07_9(ctx, rr):
+    """set_up_shards sizes the shards for the regime it picks with `n <= MAX_LIN_SIZE`; set_up_graphs must pick the
+    same regime for the same n, or shards sized for linear solving are set up for peeling (and the reverse)."""
+    F = ctx.F()
+    bodies = [b for b in F.fns() if b.file.endswith("func/shard_edge.rs") and not is_derived(b) and b.name in ("set_up_shards", "set_up_graphs", "c")]
+    tests = {}
+    for b in bodies:
+        n_id = None
+        for p in b.params:
+            if p.get("k") == "PBind" and p["name"] != "self" and F.types[p["t"]] == "usize":
+                n_id = n_id or p["id"]      # the key count is the first usize parameter
+        for n in walk(b.body):
+            if n.get("k") == "Binary" and n["op"] in ("<", "<=", ">", ">="):
+                for a, c, flip in ((n["l"], n["r"], False), (n["r"], n["l"], True)):
+                    if c.get("k") == "Path" and c.get("res") == "def" and (c.get("name") or "").endswith("MAX_LIN_SIZE") and a.get("k") == "Path" and a.get("res") == "local":
+                        op = n["op"]
+                        if flip:
+                            op = {"<": ">", "<=": ">=", ">": "<", ">=": "<="}[op]
+                        # normalise to the set of n for which the test holds: `<=` / `<` (or their negations)
+                        norm = {"<=": "n <= MAX", "<": "n < MAX", ">": "n <= MAX", ">=": "n < MAX"}[op]
+                        tests.setdefault(norm, []).append((b, n))
+    total = sum(len(v) for v in tests.values())
+    if total < 2:
+        raise AnchorMissing("expected the regime test against MAX_LIN_SIZE in set_up_shards and set_up_graphs")
+    major = max(tests, key=lambda k: len(tests[k]))
+    for norm, sites in tests.items():
+        for b, n in sites:
+            rr.instances += 1
+            ok = norm == major
+            key = "%s:regime-test" % short_fn(b.key)
+            rr.ob(ok, key=key + norm)
+            if not ok:
+                rr.violate(key, "%s tests the key count against MAX_LIN_SIZE with `%s`, the other sites with `%s`: at exactly n = MAX_LIN_SIZE the shards are sized for one regime and the graphs set up for the other" % (b.key, show(F, n)[:60], major), F.loc(n))
+
+
+@rule("R11.6", props=["C11", "C01"], floor=5, title="rank_small![k; bits] builds five different RankSmall variants, each among those implemented (one arm per variant)")
+def r11_6(ctx, rr):
+    """The macro is the documented way to pick a space/speed point; two arms building the same variant mean one
+    documented point silently costs the space of another. Read from the source text of the macro definition
+    (macro_rules bodies are not part of the typed program)."""
+    src = os.path.join(getattr(ctx, "src", "/repo"), "src/rank_sel/rank_small.rs")
+    try:
+        text = open(src).read()
+    except OSError:
+        raise AnchorMissing("src/rank_sel/rank_small.rs not found")
+    m = re.search(r"macro_rules!\s*rank_small\s*\{(.*?)\n\}", text, re.S)
+    if not m:
+        raise AnchorMissing("macro_rules! rank_small not found")
+    arms = re.findall(r"\(\s*(\d+)\s*;[^)]*\)\s*=>\s*\{[^}]*?RankSmall::<\s*(\d+)\s*,\s*(\d+)", m.group(1))
+    impls = set(re.findall(r"^impl_rank_small!\((\d+);\s*(\d+)\);", text, re.M))
+    if len(arms) < 5 or len(impls) < 5:
+        raise AnchorMissing("expected five arms of rank_small! and five impl_rank_small! instantiations, found %d/%d" % (len(arms), len(impls)))
+    seen = {}
+    for sel, a, w in arms:
+        rr.instances += 1
+        ok = (a, w) in impls and (a, w) not in seen
+        key = "rank_small![%s]:distinct-implemented-variant" % sel
+        rr.ob(ok, key=key, sample={"selector": sel, "variant": "RankSmall<%s, %s>" % (a, w)})
+        if not ok:
+            why = "the same variant as rank_small![%s]" % seen[(a, w)] if (a, w) in seen else "a variant without an implementation"
+            rr.violate(key, "rank_small![%s; ..] builds RankSmall<%s, %s>, %s: the documented space overhead of this selector is not the one obtained" % (sel, a, w, why), "src/rank_sel/rank_small.rs:%d" % (text[:m.start()].count("\n") + 1))
+        seen.setdefault((a, w), sel)
+
+
+@rule("R11.7", props=["C11", "C16"], floor=2, title="the segment size of a fuse graph never exceeds the value of the peelability formula (an explicit cap is an upper bound: min, not max)")
+def r11_7(ctx, rr):
+    """space = (l + 2) * 2^log2_seg_size with l >= 1: a segment exponent forced *up* to a constant makes every
+    structure at least 3 * 2^const cells. Whatever is assigned to log2_seg_size from `log2_seg_size(arity, n)` /
+    `lin_log2_seg_size(arity, n)` must be <= that value."""
+    F = ctx.F()
+    sg = [b for b in F.fns() if b.name == "set_up_graphs" and b.file.endswith("func/shard_edge.rs") and not is_derived(b) and "fuse" in b.path]
+    if len(sg) < 2:
+        raise AnchorMissing("expected the fuse set_up_graphs implementations")
+    n_found = 0
+    for b in sg:
+        def on_node(W, n, K):
+            pass
+        T = Termizer(F, b)
+        for n in walk(b.body):
+            if n.get("k") == "MethodCall" and n["name"] in ("min", "max", "clamp") and n["recv"].get("k") == "Call" and (F.callee(n["recv"]) or "").split("::")[-1] in ("log2_seg_size", "lin_log2_seg_size"):
+                n_found += 1
+                rr.instances += 1
+                ok = n["name"] == "min"
+                key = "%s:segment-exponent-capped-from-above" % short_fn(b.key)
+                rr.ob(ok, key=key)
+                if not ok:
+                    rr.violate(key, "%s applies `.%s(%s)` to the segment-size exponent: the result is not bounded by the peelability formula any more (with `max` every graph has segments of at least that size, i.e. at least 3 * 2^%s cells whatever the number of keys)" % (b.key, n["name"], show(F, n["args"][0]), show(F, n["args"][0])), F.loc(n))
+            elif n.get("k") == "Call" and (F.callee(n) or "").split("::")[-1] in ("log2_seg_size", "lin_log2_seg_size"):
+                rr.instances += 1
+                rr.ob(True, key="%s:segment-exponent-from-formula" % short_fn(b.key), nontrivial=False)
+    if n_found == 0:
+        raise AnchorMissing("no capped segment-size exponent found in the fuse set_up_graphs")
